@@ -151,8 +151,8 @@ impl Prop for C12 {
     }
     fn runs(&self, tier: Tier) -> u64 {
         match tier {
-            Tier::Quick => 60_000,
-            Tier::Thorough => 5_000_000,
+            Tier::Quick => 400_000,
+            Tier::Thorough => 30_000_000,
         }
     }
     fn gen(&self, seed: u64, _tier: Tier) -> Case {
